@@ -309,6 +309,9 @@ class NPProxy(types.ModuleType):
             return _np.power(a, b, out=out, **kw)
         return _np.power(a, b, **kw)
 
+    def isscalar(self, x):
+        return isinstance(x, Sym) or _np.isscalar(x)
+
     def deg2rad(self, x):
         if has_sym(x):
             return x * (_np.pi / 180.0)
